@@ -90,6 +90,16 @@ def rewrap(prop, cases, tag, pred=None):
     return out
 
 
+def ground_script(name, what, claim):
+    """a ground obligation decided by a native scenario script on the real code (exit 1 = the scenario shows the violation)"""
+
+    def run():
+        rep = replay_script(name, what)({})
+        return [(claim, not rep.get("reproduced"), str(rep.get("detail"))[:400])]
+
+    return run
+
+
 def replay_script(name, what):
     """native replay by a standalone script under contracts/replays/ (exit 0 = property holds on the real code,
     exit 1 = the script's scenario breaks it; anything else = could not run)"""
